@@ -271,7 +271,7 @@ def part_histories(ck, exe, model):
         else:
             p = bc.gen_small(r, r.randint(0, 4), r.randint(1, 4))
         cfg = clean_cfg(r)
-        kind = r.choice(["plain", "plain", "abort", "setbasis", "mods", "mods", "outside"])
+        kind = r.choice(["plain", "plain", "abort", "setbasis", "mods", "mods", "outside", "rmmulti"])
         cid = "h%d" % k
         steps = ["NEW " + lpgen.cfg_text(cfg)]
         if kind == "plain":
@@ -283,6 +283,18 @@ def part_histories(ck, exe, model):
         elif kind == "setbasis":
             rows, cols = bc.random_valid_basis(r, p)
             steps += ["SETB sb %s %s" % (bc.sarg(rows), bc.sarg(cols)), "DUMP after-setbasis A", "SOLVE warm S", "DUMP after-warm A", "SOLVE cold C", "SOLVE coldns C simplifier=0"]
+        elif kind == "rmmulti":
+            # several rows or columns removed at once right after a solve (the descriptor is live): BasisChangeModel predicts the descriptor
+            steps += ["SOLVE cold0 S", "DUMP after-solve A"]
+            for _ in range(r.randint(1, 2)):
+                rowsel = r.random() < 0.6
+                size = p.m if rowsel else p.n
+                if size >= 2:
+                    rem = set(r.sample(range(size), r.randint(1, max(1, size // 2))))
+                    what = "rmrows" if rowsel else "rmcols"
+                    steps += ["MOD %s %s %s" % (what, what, "".join("1" if i in rem else "0" for i in range(size))), "DUMP after-mod:%s A" % what]
+                    break
+            steps += ["SOLVE warm S", "DUMP after-warm A", "SOLVE cold C", "SOLVE coldns C simplifier=0"]
         elif kind == "mods":
             steps += ["SOLVE cold0 S", "DUMP after-solve A"]
             for (mk, ml) in mods_for(r, (p.m, p.n), p):
@@ -318,6 +330,18 @@ def part_histories(ck, exe, model):
                 mtxt += d.model_block("%s.%d" % (cid, i)) + "\nQ v valid 0 %s %s\n" % (bc.sarg(d.rows), bc.sarg(d.cols))
                 if d.drows is not None:
                     mtxt += "Q dv descvalid %s %s\nQ ld loaddesc %s %s\n" % (bc.sarg(d.drows), bc.sarg(d.dcols), bc.sarg(d.drows), bc.sarg(d.dcols))
+        # several rows / columns removed at once with a live basis in the solver: the descriptor before, the mask, the descriptor after
+        # (BasisChangeModel.removed_rows / removed_cols)
+        nd = 0
+        for st in steps:
+            w = st.split()
+            if w[0] == "DUMP":
+                nd += 1
+            elif w[0] == "MOD" and w[2] in ("rmrows", "rmcols") and 0 < nd < len(ds):
+                pre = ds[nd - 1][1]
+                if pre.has and pre.loaded and not pre.unsafe and pre.drows is not None and int(pre.d["bstat"]) > -2:
+                    mtxt += pre.model_block("%s.%d.rm" % (cid, nd)) + "\nQ rm removed %s %s %s %s\n" % (
+                        "rows" if w[2] == "rmrows" else "cols", bc.sarg(pre.drows), bc.sarg(pre.dcols), w[3])
     mout = bc.run_model(ck, model, mtxt, "hist")
     MA = bc.answers(mout)
     crashed = rc != 0
@@ -352,6 +376,23 @@ def part_histories(ck, exe, model):
             after_solve = idx > 0 and seq[idx - 1].startswith("SOLVE ")
             ck.evaluated((cid, tag), nontrivial=(d.m + d.n >= 3))
             ck.count("dump:has=%d:%s" % (1 if d.has else 0, tag.split(":")[0]))
+            rm = MA.get("%s.%d.rm" % (cid, di), {}).get("rm")
+            if rm is not None:
+                which = tag.split(":")[-1]
+                ck.count("removal-compared:%s:%s" % (which, rm["_kind"] if "drows" not in rm else "kept"))
+                predicted_kept = "drows" in rm
+                rp = dict(ctx, at=tag, model=rm, descriptor_after=[d.drows, d.dcols], has_after=d.has,
+                          correspondence="BasisChangeModel.removed_rows / removed_cols (extracted) vs SPxBasisBase::removedRows / removedCols")
+                if predicted_kept and not d.has:
+                    ck.violation("tie-mismatch:removal-dropped-basis:%s" % which,
+                                 "after '%s' the basis is gone although every removed row was basic / every removed column non-basic (the model keeps it)" % tag, rp)
+                elif not predicted_kept and d.has and d.loaded and int(d.d["bstat"]) > -2:
+                    ck.violation("tie-mismatch:removal-kept-basis:%s" % which,
+                                 "after '%s' hasBasis() is true although a non-basic row / a basic column was removed (the model drops the basis)" % tag, rp)
+                elif predicted_kept and d.has and d.loaded and d.drows is not None and (bc.stat(rm.get("drows", "")) != d.drows or bc.stat(rm.get("dcols", "")) != d.dcols):
+                    ck.violation("tie-mismatch:removal-descriptor:%s" % which,
+                                 "after '%s' the descriptor is rows=%s cols=%s, the model (survivors in order) says rows=%s cols=%s" % (
+                                     tag, d.drows, d.dcols, rm.get("drows"), rm.get("dcols")), dict(rp, theorem="C04_removed_rows_keeps_a_basis / C04_compaction_keeps_survivors_in_order"))
             if not d.has:
                 continue
             base = tag if not tag.startswith("after-warm") else "after-warm"
